@@ -25,5 +25,11 @@ def replay_file(path):
         import os, subprocess
         here = os.path.dirname(os.path.dirname(os.path.abspath(__file__)))
         return subprocess.call(["/venv/bin/python", os.path.join(here, "bounded", "certs_v1.py"), "--replay", path])
-    print(json.dumps({k: rep.get(k) for k in ("property", "obligation", "goal", "replay", "replay_confirmed")}, indent=1))
+    print(json.dumps({k: rep.get(k) for k in ("property", "obligation", "goal", "replay", "replay_input", "replay_confirmed")}, indent=1))
+    if rep.get("replay_input") and rep.get("function"):
+        try:
+            from replay import drivers
+            print("re-running the recorded input on the real code now:", drivers.rerun(rep["function"], rep["replay_input"]))
+        except Exception as e:      # noqa
+            print("re-run not possible: %s: %s" % (type(e).__name__, e))
     return 0
